@@ -170,7 +170,7 @@ import (
 func Abbreviate(s string, n int) string {
 	const spaces = " \n\r\t\f" // https://infra.spec.whatwg.org/#ascii-whitespace
 	s = strings.TrimRight(s, spaces)
-	if len(s) <= n {
+	if len(s) <= n || utf8.RuneCountInString(s) <= n {
 		return s
 	}
 	if n < 3 {
